@@ -64,6 +64,7 @@ type FuncSpec struct {
 	Lets      []LetSpec
 	Uses      []UseSpec
 	IsLemma   bool
+	CrashInv  []Clause // asserted after every callee that modifies ghost state mentioned in the clause
 	NoReturn  bool
 	NoSafety  bool
 	Terminate bool
@@ -117,7 +118,7 @@ var clauseKeywords = map[string]bool{
 	"func": true, "extern": true, "type": true, "global": true, "axiom": true, "requires": true, "ensures": true,
 	"modifies": true, "decreases": true, "loop": true, "invariant": true, "ghost": true, "assert": true,
 	"calls": true, "pure": true, "trusted": true, "returns_elem": true, "opaque": true, "let": true, "nosafety": true,
-	"package": true, "field": true, "terminates": true, "macro": true, "lemma": true, "use": true, "hint": true, "noreturn": true,
+	"package": true, "field": true, "terminates": true, "macro": true, "lemma": true, "use": true, "hint": true, "noreturn": true, "crash_invariant": true,
 }
 
 // Macro is a textual abbreviation usable in contract expressions: macro NAME(a, b) = body.
@@ -357,6 +358,8 @@ func (cs *Contracts) ParseFile(path string) error {
 				curF.NoSafety = true
 			case "noreturn":
 				curF.NoReturn = true
+			case "crash_invariant":
+				curF.CrashInv = append(curF.CrashInv, parseClause(rc.rest, path, rc.line))
 			case "terminates":
 				curF.Terminate = true
 			case "returns_elem":
